@@ -2110,14 +2110,22 @@ coap_oscore_overhead(coap_session_t *session, coap_pdu_t *pdu) {
   /* Proxy URI option Split - covered by coap_rebuild_pdu_for_proxy () */
 
   /* OSCORE option */
-  /* Option header */
-  overhead += 1 +
+  /* Option header (delta/length byte + extended length byte) */
+  overhead += 2 +
+              /* Flag byte */
+              1 +
               /* Partial IV (64 bits max)*/
               8 +
-              /* kid context */
-              (osc_ctx->id_context ? osc_ctx->id_context->length : 0) +
+              /* kid context (length byte + value) */
+              (osc_ctx->id_context ? 1 + osc_ctx->id_context->length : 0) +
               /* kid */
               osc_ctx->sender_context->sender_id->length;
+
+  /*
+   * Splitting the options into an inner and an outer list can lengthen
+   * option deltas; Hop-Limit may get added along with Proxy-Scheme.
+   */
+  overhead += 2 + 2 + 2;
 
   /* AAD overhead */
   overhead += AES_CCM_TAG;
